@@ -16,7 +16,8 @@ type pollQueue struct {
 
 func newPollQueue() *pollQueue {
 	return &pollQueue{
-		ready: make(chan struct{}),
+		// Buffered, so that the signal is not lost if `add` runs when `poll` is not (yet) receiving.
+		ready: make(chan struct{}, 1),
 	}
 }
 
@@ -29,12 +30,21 @@ func (pq *pollQueue) poll(pollTimeout time.Duration) []*parser.Packet {
 		return packets
 	}
 
-	select {
-	case <-pq.ready:
-		packets = pq.get()
-	case <-time.After(pollTimeout):
+	timeout := time.NewTimer(pollTimeout)
+	defer timeout.Stop()
+
+	for {
+		select {
+		case <-pq.ready:
+			// The signal can be a leftover of packets that were already retrieved. If so, keep waiting.
+			packets = pq.get()
+			if len(packets) > 0 {
+				return packets
+			}
+		case <-timeout.C:
+			return pq.get()
+		}
 	}
-	return packets
 }
 
 // add a packet to the queue and signal the other goroutine (if any).
